@@ -267,18 +267,28 @@ def replay_choice_scheme(p):
         weights = [cw[0]] + [b - a for a, b in zip(cw, cw[1:])]
     else:
         weights = [1] * len(pop)
-    k = scheme.py_position_k(uid)
-    allowed = {scheme.py_select(kk, weights) for kk in (max(k - 1, 0), k, min(k + 1, 2 ** 32 - 1))}
     seen = []
     bad = []
-    for _ in range(25):
-        o = outcome_of(lambda: binning.deterministic_choice(*args, **kwargs))
-        if show(o) not in seen:
-            seen.append(show(o))
-        if not (o[0] == "value" and any(o[1] == pop[i] for i in allowed)):
-            bad.append(show(o))
-    return {"reproduced": bool(bad) or len(seen) > 1, "expected": "population index in %s on every call" % sorted(allowed),
-            "observed": "results %s" % seen[:4]}
+    varied = False
+    # the solver's id first, then a few ids derived from it (a scheme that differs from the published one agrees with it
+    # on a single id with probability 1/len(population))
+    ids = [uid] + ([uid + "#%d" % i for i in range(24)] if isinstance(uid, str) else [])
+    for u in ids:
+        k = scheme.py_position_k(u)
+        allowed = {scheme.py_select(kk, weights) for kk in (max(k - 1, 0), k, min(k + 1, 2 ** 32 - 1))}
+        here = []
+        for _ in range(8 if u is not uid else 25):
+            o = outcome_of(lambda: binning.deterministic_choice(u, *args[1:], **kwargs))
+            if show(o) not in here:
+                here.append(show(o))
+            if not (o[0] == "value" and any(o[1] == pop[i] for i in allowed)):
+                bad.append("id %r: %s, scheme allows index %s" % (u, show(o), sorted(allowed)))
+        varied = varied or len(here) > 1
+        seen += [x for x in here if x not in seen]
+        if bad or varied:
+            break
+    return {"reproduced": bool(bad) or varied, "expected": "the item the published scheme selects, on every call",
+            "observed": (bad[0] if bad else "results %s" % seen[:4])}
 
 
 @register("choice_repeat")
